@@ -23,7 +23,7 @@ import semgen
 import vlib
 from vlib import Inconclusive
 
-POOL = 3
+POOL = 4
 BATCH = 12
 
 # hand-rendered instances of the VisitorOrder counterexample: a parameter node is reached, with the same call stack,
@@ -277,7 +277,7 @@ def run(ctx):
                    and os.path.exists(os.path.join(tdir, d, "main.go")))
     rest = [d for d in avail if d not in REPO_FIXED]
     rnd.shuffle(rest)
-    repo_sel = [d for d in REPO_FIXED if d in avail] + rest[: (12 if thorough else 2)]
+    repo_sel = [d for d in REPO_FIXED if d in avail] + rest[: (12 if thorough else 1)]
     for d in repo_sel:
         cdir = os.path.join(root, "repo-" + d)
         os.makedirs(os.path.join(cdir, "reports"))
@@ -380,7 +380,7 @@ def run(ctx):
     pby = {p["name"]: p for p in progs}
     byprog = {}
     for f in fails:
-        byprog.setdefault((f["prog"], f["what"]), []).append(f)
+        byprog.setdefault((f["prog"], f["what"], f["cfg"]), []).append(f)
 
     def files_of(p, fl):
         fs = {"input.json": json.dumps(p["desc"], indent=1), "failures.json": json.dumps(fl, indent=1)}
@@ -407,12 +407,21 @@ def run(ctx):
                 continue
             if "hazard" in mt and p["desc"].get("hazard") != mt["hazard"]:
                 continue
+            if "same_side" in mt:
+                # only WHICH origin / escape site is reported varies: the projection on the other component (the entry
+                # points that have a trace / the sources that have an escape) is the same in every run
+                k = 1 if mt["same_side"] == "right" else 0
+                field = "traces" if what == "traces" else "escapes"
+                c = [c for c in p["cfgs"] if c["cfg"] == fl[0]["cfg"]][0]
+                projs = {frozenset(x.split(">")[k] for x in r_[field]) for r_ in c["runs"] if r_["ok"]}
+                if len(projs) != 1:
+                    continue
             return e
         return None
 
     seen_known = {}
     nviol = 0
-    for (pn, what), fl in sorted(byprog.items()):
+    for (pn, what, cfgn), fl in sorted(byprog.items()):
         p = pby[pn]
         e = known_for(p, what, fl)
         if e:
@@ -439,7 +448,7 @@ def run(ctx):
             ctx.known(e["id"], "%s (program %s, cfg %s: %d differing runs)" % (
                 e["what"], json.dumps(h[0]["desc"])[:120], h[2][0]["cfg"], len(h[2])))
         if e.get("status") == "fixed" and e.get("match", {}).get("hazard"):
-            for (pn, what), fl in byprog.items():
+            for (pn, what, cfgn), fl in byprog.items():
                 if pby[pn]["desc"].get("hazard") == e["match"]["hazard"]:
                     ctx.violation("pinned input of the FIXED finding %s fails again (%s)" % (e["id"], what),
                                   files_of(pby[pn], fl), key="C06/fixed/" + e["id"])
